@@ -6,7 +6,6 @@ import (
 	"go/token"
 	"go/types"
 	"math"
-	"strings"
 
 	"golang.org/x/tools/go/ssa"
 )
@@ -992,7 +991,7 @@ func runR107(c *Ctx) {
 				return
 			}
 			want := accessPath(x)
-			if why := r107ExemptReason(fn, x); why != "" {
+			if why := r107ExemptReason(p, fn, x); why != "" {
 				c.okTrivial(key, pos, "frozen exception: "+why)
 				return
 			}
@@ -1044,12 +1043,12 @@ func rangeKeyOfAny(fn *ssa.Function, in ssa.Instruction) bool {
 
 // r107ExemptReason: element 0 of a group is its first row - groups are never empty by construction (an entry of
 // the grouping table is created for a row and holds it).
-func r107ExemptReason(fn *ssa.Function, x ssa.Value) string {
+func r107ExemptReason(p *Prog, fn *ssa.Function, x ssa.Value) string {
 	why := "a group holds at least the row that created its table entry (R11, R8): the cells / positions of a group are never empty"
 	if fname(fn) == "(qframe.QFrame).Append" {
 		return "work-in-progress API outside every property"
 	}
-	if pr, ok := x.(*ssa.Parameter); ok && (fn.Name() == "min" || fn.Name() == "max") && strings.HasSuffix(fn.Pkg.Pkg.Path(), "column") && pr == fn.Params[0] {
+	if pr, ok := x.(*ssa.Parameter); ok && groupValuesParam(p, pr, 0) {
 		return why
 	}
 	if isIntIndexType(x.Type()) {
@@ -1063,6 +1062,51 @@ func r107ExemptReason(fn *ssa.Function, x ssa.Value) string {
 		}
 	}
 	return ""
+}
+
+// groupValuesParam: pr receives one group's values: it is the slice parameter of a function registered in a
+// column package's aggregation table (func([]T) T), or of a helper all of whose callers pass such a parameter.
+func groupValuesParam(p *Prog, pr *ssa.Parameter, depth int) bool {
+	if p == nil || depth > 2 {
+		return false
+	}
+	fn := pr.Parent()
+	if fn == nil || fn.Pkg == nil {
+		return false
+	}
+	for _, cp := range columnPkgs {
+		if fn.Pkg.Pkg.Path() != rel(cp) {
+			continue
+		}
+		for _, e := range comparatorTables(p, cp) {
+			if e.fn == fn && len(fn.Params) == 1 && fn.Params[0] == pr {
+				if sl, ok := pr.Type().Underlying().(*types.Slice); ok && fn.Signature.Results().Len() == 1 && types.Identical(sl.Elem(), fn.Signature.Results().At(0).Type()) {
+					return true
+				}
+			}
+		}
+	}
+	sites, asValue := p.staticCallSites(fn)
+	if asValue || len(sites) == 0 || fn.Signature.Recv() != nil {
+		return false
+	}
+	idx := -1
+	for i, q := range fn.Params {
+		if q == pr {
+			idx = i
+		}
+	}
+	for _, ci := range sites {
+		args := ci.Common().Args
+		if idx < 0 || idx >= len(args) {
+			return false
+		}
+		a, ok := args[idx].(*ssa.Parameter)
+		if !ok || !groupValuesParam(p, a, depth+1) {
+			return false
+		}
+	}
+	return true
 }
 
 // lenLowerBound: the least length of x at block b implied by the guards on len(x) (same access path): equalities,
@@ -1237,4 +1281,95 @@ func runR108(c *Ctx) {
 			}
 		})
 	}
+}
+
+// ---- R118: allocation sizes computed by subtraction are not negative ----
+
+func init() {
+	register(&Rule{ID: "R118", Name: "MAKE-SIZE-NONNEG", Floor: 1,
+		Text: "every make([]T, n, c) in the module (ryu excluded) whose length or capacity is a difference a - b is justified: b is a constant and a = len(x) with dominating guards that imply len(x) >= b (R107's length facts), or the site is a frozen exception with its reason. A size that can go negative is a run-time panic (makeslice: len/cap out of range) for the inputs that make it so - the empty argument list, the frame without columns",
+		Run:  runR118})
+}
+
+func runR118(c *Ctx) {
+	p := c.P
+	nMake := 0
+	defer func() {
+		// the rule's domain is every make in scope; how many of them compute a size by subtraction varies
+		if nMake == 0 {
+			c.undecided("module|allocations", "-", "no make([]T, ...) found in scope")
+		} else {
+			c.okTrivial("module|allocations examined", "-", fmt.Sprintf("%d slice allocations examined", nMake))
+		}
+	}()
+	for _, fn := range p.Funcs {
+		if fn.Pkg == nil || fn.Pkg.Pkg.Path() == rel("internal/ryu") {
+			continue
+		}
+		fnm := fname(fn)
+		eachInstr(fn, func(in ssa.Instruction) {
+			mk, ok := in.(*ssa.MakeSlice)
+			if !ok {
+				return
+			}
+			nMake++
+			for _, sz := range []ssa.Value{mk.Len, mk.Cap} {
+				sub, ok := sz.(*ssa.BinOp)
+				if !ok || sub.Op != token.SUB {
+					continue
+				}
+				key := fmt.Sprintf("%s|make size %s", fnm, describeShort(sub))
+				pos := p.instrPos(in)
+				k, isK := constInt(sub.Y)
+				if lc, isLen := sub.X.(*ssa.Call); isK && isLen && builtinName(lc) == "len" {
+					if lb := lenLowerBound(fn, lc.Call.Args[0], in.Block(), 0); lb >= k {
+						c.ok(key, pos, fmt.Sprintf("dominating guards imply len >= %d", lb))
+					} else {
+						c.bad(key, pos, fmt.Sprintf("the size %s is negative when the slice has fewer than %d element(s); no dominating guard excludes that: make panics", describeShort(sub), k))
+					}
+					continue
+				}
+				if why := r118Exempt(sub); why != "" {
+					c.okTrivial(key, pos, "frozen exception: "+why)
+					continue
+				}
+				c.undecided(key, pos, "an allocation size computed by subtraction that is neither `len(x) - constant` nor a listed exception")
+			}
+		})
+	}
+}
+
+func describeShort(b *ssa.BinOp) string {
+	side := func(v ssa.Value) string {
+		if call, ok := v.(*ssa.Call); ok {
+			if builtinName(call) == "len" {
+				return "len(" + accessPath(call.Call.Args[0]) + ")"
+			}
+			if o := calleeObj(call); o != nil {
+				return o.Name() + "()"
+			}
+		}
+		if k, ok := constInt(v); ok {
+			return fmt.Sprint(k)
+		}
+		return v.Name()
+	}
+	return side(b.X) + " - " + side(b.Y)
+}
+
+// r118Exempt: both sides are the Len() of an index.Int - the rows of a frame minus the rows one of its own
+// filters kept (NotClause): the kept rows are a subsequence of the frame's rows (R8), so the difference is >= 0.
+func r118Exempt(sub *ssa.BinOp) string {
+	isIndexLen := func(v ssa.Value) bool {
+		call, ok := v.(*ssa.Call)
+		if !ok || len(call.Call.Args) != 1 {
+			return false
+		}
+		o := calleeObj(call)
+		return o != nil && o.Name() == "Len" && isIntIndexType(call.Call.Args[0].Type())
+	}
+	if isIndexLen(sub.X) && isIndexLen(sub.Y) {
+		return "rows of the frame minus rows kept by a clause applied to that frame: kept rows are a subsequence of the frame's rows (R8)"
+	}
+	return ""
 }
